@@ -1,7 +1,10 @@
 use crate::engine::Ctx;
 
+pub mod c10;
+
 pub fn run(ctx: &Ctx) -> i32 {
     match ctx.prop.as_str() {
+        "C10" => c10::run(ctx),
         _ => {
             eprintln!("machinery error: no check registered for {}", ctx.prop);
             2
@@ -21,8 +24,8 @@ pub fn replay(ctx: &Ctx, path: &str) -> i32 {
         Some((_, b)) => b.to_string(),
         None => text.clone(),
     };
-    let _ = body;
     match ctx.prop.as_str() {
+        "C10" => c10::replay(ctx, &body),
         _ => {
             eprintln!("machinery error: no replay registered for {}", ctx.prop);
             2
